@@ -217,9 +217,15 @@ def check_actions(ctx, env, inner, where):
             ctx.check(env.action_space.contains(np.array([j, -1])), "action-not-in-space", f"{where}: legal action ({j},-1) not in {env.action_space}")
 
 
-def legal_action(inner, a, b, raw):
+def legal_action(inner, a, b, raw, ctx=None):
     d = inner.dispatcher
     pool = d.raw_ready_operations() if raw else (d.available_operations() or d.raw_ready_operations())
+    if not pool and ctx is not None:
+        ctx.fail(
+            "no-ready-operation",
+            f"the environment's dispatcher reports no ready operation although its schedule holds "
+            f"{d.schedule.num_scheduled_operations} of {inner.instance.num_operations} operations",
+        )
     op = pool[a % len(pool)]
     if len(op.machines) == 1 and b % 2:
         return (op.job_id, -1)
@@ -248,13 +254,13 @@ def run_episodes(ctx, case, env, get_inner, multi, after_reset):
                 import copy
 
                 clone = copy.deepcopy(env)
-                act_c = legal_action(clone, 0, 0, 1)
+                act_c = legal_action(clone, 0, 0, 1, ctx)
                 ob_c, _r, _d, _t, _i = clone.step(act_c)
                 check_mirror(ctx, clone, ob_c, f"episode {ep} step {k}: deep copy of the env after its own step {act_c}")
                 ob_o = env.get_observation()
                 check_mirror(ctx, env, ob_o, f"episode {ep} step {k}: original env after its deep copy stepped")
                 ctx.count("env_deepcopies")
-            act = legal_action(inner, a >> 1, b, a & 1)
+            act = legal_action(inner, a >> 1, b, a & 1, ctx)
             ob, reward, done, truncated, info = env.step(act)
             where = f"episode {ep} step {k} action {act}"
             ctx.check(done is inner.dispatcher.schedule.is_complete() or done == inner.dispatcher.schedule.is_complete(), "done-flag", f"{where}: done={done!r}")
